@@ -85,7 +85,7 @@ Qed.
 (* ---------- which program counters can always move *)
 Definition is_runnable (x : wst) : bool :=
   match x with
-  | WRun _ PCb | WRun _ (PCbUnOut _) | WRun _ (PCbUnIn _) | WRun _ PAcq | WRun _ (PWrite _)
+  | WRun _ PCb | WRun _ (PCbUnOut _) | WRun _ (PCbUnIn _) | WRun _ POpen | WRun _ PAcq | WRun _ (PWrite _)
   | WRun _ (PRel _ _) | WRun _ (PTUn _) | WRun _ (PFin _) => true
   | _ => false
   end.
